@@ -449,6 +449,8 @@ PROPS['C04']['required_theorems'] += ['sphere_loop', 'vincdir_sphere', 'vincdir_
 PROPS['C05']['more_proof_modules'] = list(PROPS['C05'].get('more_proof_modules', [])) + ['GeodeVerif.Proofs.C05b']
 PROPS['C05']['required_theorems'] += ['sphere_loop_exits_first_pass', 'sphere_sigma_is_central_angle', 'vincinv_sphere']
 PROPS['C10']['required_theorems'] += ['west_east_in_strip', 'side_across_antimeridian', 'conv_sign_in_strip']
+PROPS['C10']['more_proof_modules'] = list(PROPS['C10'].get('more_proof_modules', [])) + ['GeodeVerif.Proofs.C10c']
+PROPS['C10']['required_theorems'] += ['pS_sphere', 'qS_sphere', 'psf_sphere', 'conv_sphere', 'geo2grid_sphere_psf_conv']
 PROPS['C16']['more_proof_modules'] = ['GeodeVerif.Proofs.C16b']
 PROPS['C16']['required_theorems'] += ['ttable_is_tableQ', 'even_checks', 'odd_checks', 't_table_even', 't_table_odd', 't_table',
                                       't_table_bracket', 't_quantile_exists_unique', 'k_val95_quantile', 'k_val95_even']
